@@ -174,6 +174,23 @@ def run(chk):
     chk.inst("C.3", "census", True, f"{n_scale} reads of .scale outside date.py, none in a test position", "", nontrivial=False)
     chk.extra.update({"functions_scanned": n_funcs, "reads_inside_date_py_exempt": n_exempt,
                       "label_emitters": sorted(f"{k[0]}::{k[1]}" for k in emitters)})
+    # C.4 — the dual of C.1 on the reading side of a record: a function that is handed the label of the dates it builds
+    # (a `scale` parameter) passes it to every Date it builds; a builder without it falls back to UTC, so the instant read
+    # depends on which syntactic variant of the timestamp was met
+    chk.rule("C.4", "a function that receives the scale of the dates it builds hands it to every Date constructor it calls")
+    n4 = 0
+    for f in repo.all_funcs():
+        if f.module.rel in EXEMPT_MODULES or "scale" not in f.params():
+            continue
+        builders = [n for n in ast.walk(f.node) if isinstance(n, ast.Call) and unparse(n.func) in ("Date", "Date.strptime", "Date.strptime", "Date.fromisoformat")]
+        for b in builders:
+            passed = any(k.arg == "scale" and unparse(k.value).split(".")[0] == "scale" for k in b.keywords) or \
+                any(isinstance(a, ast.Name) and a.id == "scale" for a in b.args)
+            n4 += 1
+            chk.inst("C.4", f"{f.ref}::{unparse(b.func)}({', '.join(unparse(a) for a in b.args[1:2])})", passed,
+                     "built in the scale the caller named" if passed else
+                     f"`{unparse(b)[:90]}` ignores the `scale` it was given: the date is built in UTC whatever the label of the record", loc(f, b))
+    chk.floor("C.4", 3)
     chk.floor("C.1", 30)
     chk.floor("C.2", 4)
     chk.assume("receivers of the ambiguous names .d/.s are Dates unless listed in NON_DATE_RECEIVERS (sgp4beta Init)")
